@@ -66,6 +66,40 @@ pub fn take_panic_message() -> String {
 extern "C" {
     fn signal(signum: i32, handler: usize) -> usize;
     fn _exit(code: i32) -> !;
+    fn alarm(seconds: u32) -> u32;
+}
+
+/// Per worker: what it is executing right now, readable from the watchdog thread.
+/// [run index + 1 (0 = idle), progress counter, sweep variant event + 1 (0 = base), variant call, variant n]
+static WORKER_STATE: [[AtomicU64; 5]; 64] = [const { [const { AtomicU64::new(0) }; 5] }; 64];
+
+thread_local! {
+    static WORKER_ID: std::cell::Cell<usize> = const { std::cell::Cell::new(usize::MAX) };
+}
+
+fn worker_note(index: u64, variant: Option<(usize, usize, usize)>) {
+    let w = WORKER_ID.with(|c| c.get());
+    if w < 64 {
+        let st = &WORKER_STATE[w];
+        st[0].store(index + 1, Ordering::Relaxed);
+        match variant {
+            Some((e, c, n)) => {
+                st[2].store(e as u64 + 1, Ordering::Relaxed);
+                st[3].store(c as u64, Ordering::Relaxed);
+                st[4].store(n as u64, Ordering::Relaxed);
+            }
+            None => st[2].store(0, Ordering::Relaxed),
+        }
+        st[1].fetch_add(1, Ordering::Relaxed);
+    }
+}
+
+fn worker_idle() {
+    let w = WORKER_ID.with(|c| c.get());
+    if w < 64 {
+        WORKER_STATE[w][0].store(0, Ordering::Relaxed);
+        WORKER_STATE[w][1].fetch_add(1, Ordering::Relaxed);
+    }
 }
 
 /// The library made the process abort (failed unsafe-precondition check = non-unwinding
@@ -73,6 +107,10 @@ extern "C" {
 /// report it before dying. abort() raises the signal synchronously on the thread
 /// that panicked, so the thread-locals are this run's.
 extern "C" fn on_fatal_signal(sig: i32) {
+    // if the report below dead-locks (the heap may be corrupted) the process is killed by SIGALRM
+    unsafe {
+        alarm(3);
+    }
     let tick = exec::CURRENT_TICK.with(|c| c.get());
     let msg = PANIC_MSG.with(|m| m.try_borrow().map(|s| s.clone()).unwrap_or_default());
     let dir = ABORT_DIR.try_lock().ok().and_then(|g| g.clone()).unwrap_or_else(|| "../replays".into());
@@ -404,6 +442,13 @@ fn cmd_run(a: &Args, sweep: bool) -> i32 {
         known,
     });
     let t0 = Instant::now();
+    #[cfg(not(miri))]
+    {
+        let profiles = profiles.clone();
+        let replay_dir = replay_dir.clone();
+        let prop = prop.clone();
+        std::thread::spawn(move || watchdog(seed, sweep, profiles, replay_dir, prop));
+    }
     let mut handles = Vec::new();
     for t in 0..threads {
         let shared = shared.clone();
@@ -422,6 +467,7 @@ fn cmd_run(a: &Args, sweep: bool) -> i32 {
                         known_hits: BTreeMap::new(),
                     };
                     let profs: Vec<gen::Profile> = profiles.iter().map(|p| gen::profile(p).unwrap()).collect();
+                    WORKER_ID.with(|c| c.set(t));
                     let mut i = start + t as u64;
                     while i < start + runs {
                         if i > shared.stop_after.load(Ordering::SeqCst) {
@@ -435,10 +481,12 @@ fn cmd_run(a: &Args, sweep: bool) -> i32 {
                         } else {
                             let pi = (i % profs.len() as u64) as usize;
                             let tr = gen::generate(&profs[pi], run_seed(seed, profs[pi].name, i));
+                            worker_note(i, None);
                             judge_and_record(&tr, &prop, i, "", &shared, &mut out);
                         }
                         i += threads as u64;
                     }
+                    worker_idle();
                     out
                 })
                 .unwrap(),
@@ -546,10 +594,76 @@ fn cmd_run(a: &Args, sweep: bool) -> i32 {
     exit
 }
 
+/// A session normally takes well under a millisecond. A worker that sits on the same execution
+/// for HANG_SECONDS is stuck inside the library (endless loop, or a dead-lock after it corrupted
+/// memory): regenerate the trace it is executing, save it and give up with exit code 4.
+#[cfg(not(miri))]
+const HANG_SECONDS: u64 = 30;
+
+#[cfg(not(miri))]
+fn watchdog(seed: u64, sweep: bool, profiles: Vec<String>, replay_dir: String, prop: String) {
+    let mut last: Vec<(u64, u64)> = vec![(0, 0); 64];
+    loop {
+        std::thread::sleep(std::time::Duration::from_secs(1));
+        for w in 0..64 {
+            let st = &WORKER_STATE[w];
+            let idx = st[0].load(Ordering::Relaxed);
+            let ctr = st[1].load(Ordering::Relaxed);
+            if idx == 0 || ctr != last[w].0 {
+                last[w] = (ctr, 0);
+                continue;
+            }
+            last[w].1 += 1;
+            if last[w].1 < HANG_SECONDS {
+                continue;
+            }
+            // stuck: if even this report blocks, SIGALRM ends the process
+            unsafe {
+                alarm(10);
+            }
+            let index = idx - 1;
+            let mut tr = if sweep {
+                gen::scenario(prng::mix(&[seed, 0x5ce0, index]), (index % gen::N_SCENARIO_KINDS as u64) as usize)
+            } else {
+                let pi = (index % profiles.len() as u64) as usize;
+                let p = gen::profile(&profiles[pi]).expect("profile");
+                gen::generate(&p, run_seed(seed, p.name, index))
+            };
+            let ve = st[2].load(Ordering::Relaxed);
+            if ve != 0 {
+                let e = (ve - 1) as usize;
+                let call = st[3].load(Ordering::Relaxed) as usize;
+                let n = st[4].load(Ordering::Relaxed) as usize;
+                if e == usize::MAX - 1 {
+                    tr.cfg.build_fault = Some(call);
+                } else if e < tr.events.len() {
+                    tr.events[e].faults.push(Fault { call, n });
+                }
+            }
+            let text = tr.to_text();
+            let _ = std::fs::create_dir_all(&replay_dir);
+            let path = format!("{replay_dir}/{prop}-hang-{:016x}.trace", prng::fnv1a(text.as_bytes()));
+            let _ = std::fs::write(
+                &path,
+                format!(
+                    "# VIOLATION property=C03 check=hang: a worker was stuck in this session for {HANG_SECONDS} s (endless loop in the library, or dead-lock after memory was corrupted)\n# build: features={} family={}\n{text}",
+                    build_tag(),
+                    cmdsets_gen::FAMILY_SEED
+                ),
+            );
+            println!("HANG run={index} replay={path}");
+            use std::io::Write;
+            let _ = std::io::stdout().flush();
+            unsafe { _exit(4) }
+        }
+    }
+}
+
 /// C14 fault enumeration for one scenario: fail every sink call position in turn
 fn sweep_one(seed: u64, index: u64, prop: &str, shared: &Shared, out: &mut ThreadOut) {
     let kind = (index % gen::N_SCENARIO_KINDS as u64) as usize;
     let tr = gen::scenario(prng::mix(&[seed, 0x5ce0, index]), kind);
+    worker_note(index, None);
     let base = match judge_and_record(&tr, prop, index, "base", shared, out) {
         Some(r) => r,
         None => return,
@@ -564,6 +678,7 @@ fn sweep_one(seed: u64, index: u64, prop: &str, shared: &Shared, out: &mut Threa
     for call in 0..4 {
         let mut v = tr.clone();
         v.cfg.build_fault = Some(call);
+        worker_note(index, Some((usize::MAX - 1, call, 1)));
         judge_and_record(&v, prop, index, &format!("buildfault@{call}"), shared, out);
     }
     for (e, &n_calls) in base.calls_per_event.iter().enumerate() {
@@ -575,6 +690,7 @@ fn sweep_one(seed: u64, index: u64, prop: &str, shared: &Shared, out: &mut Threa
                 let mut v = tr.clone();
                 v.events[e].faults.push(Fault { call, n });
                 let variant = format!("fault@{e}.{call}x{n}");
+                worker_note(index, Some((e, call, n)));
                 judge_and_record(&v, prop, index, &variant, shared, out);
             }
         }
